@@ -145,6 +145,9 @@ pub enum Op {
     CopyB { s: String, d: String, calls: Vec<CopyCall> },
     /// builder created, then the cwd changes, then exec(): when does a builder resolve its paths?
     CopyBDeferred { s: String, d: String, calls: Vec<CopyCall>, cwd: String },
+    /// builder created, working directory changed, then executed: the path was given before
+    ChmodBDeferred { p: String, calls: Vec<ChmodCall>, cwd: String },
+    ChownBDeferred { p: String, calls: Vec<ChownCall>, cwd: String },
     Cwd,
     Root,
     SetCwd { p: String },
@@ -218,6 +221,8 @@ impl Op {
             Op::Copy { .. } => "copy",
             Op::CopyB { .. } => "copy_b",
             Op::CopyBDeferred { .. } => "copy_b_deferred",
+            Op::ChmodBDeferred { .. } => "chmod_b_deferred",
+            Op::ChownBDeferred { .. } => "chown_b_deferred",
             Op::Cwd => "cwd",
             Op::Root => "root",
             Op::SetCwd { .. } => "set_cwd",
@@ -317,6 +322,7 @@ impl Op {
             | Op::Expand { p } => vec![p],
             Op::Copy { s, d } | Op::CopyB { s, d, .. } | Op::MoveP { s, d } => vec![s, d],
             Op::CopyBDeferred { s, d, cwd, .. } => vec![s, d, cwd],
+            Op::ChmodBDeferred { p, cwd, .. } | Op::ChownBDeferred { p, cwd, .. } => vec![p, cwd],
             Op::Symlink { l, t } => vec![l, t],
             Op::Macro { a, b, .. } => {
                 let mut v = vec![a];
